@@ -414,7 +414,7 @@ func genNeg(t *rapid.T) negCase {
 		}
 		c.Accepts = append(c.Accepts, strings.Join(parts, rapid.SampledFrom([]string{",", ", "}).Draw(t, "sep")))
 	}
-	c.PathKind = rapid.SampledFrom([]string{"ok-mh", "ok-mh", "ok-cid", "prefix-ok", "other-type", "no-type", "missing-key", "garbage-mh", "garbage-cid", "trailing-slash", "bad-multihash"}).Draw(t, "pathkind")
+	c.PathKind = rapid.SampledFrom([]string{"ok-mh", "ok-mh", "ok-cid", "prefix-ok", "other-type", "no-type", "missing-key", "garbage-mh", "garbage-cid", "trailing-slash", "bad-multihash", "no-path", "star-path"}).Draw(t, "pathkind")
 	c.Garbage = rapid.StringMatching(`[a-zA-Z0-9_.~-]{1,12}`).Draw(t, "garbage")
 	return c
 }
@@ -476,19 +476,43 @@ func runNeg(c negCase) pbt.Result {
 	cur = []model.ProviderResult{{ContextID: []byte("x"), Metadata: []byte("y"), Provider: &peer.AddrInfo{ID: gen.Keys()[0].ID}}}
 	newErrs = nil
 	curMu.Unlock()
-	req, err := http.NewRequest(http.MethodGet, srv.URL+path, nil)
-	if err != nil {
-		return pbt.Result{Skip: true}
-	}
-	for _, h := range c.Accepts {
-		req.Header.Add("Accept", h)
-	}
-	hr, err := http.DefaultClient.Do(req)
-	if err != nil {
-		if strings.Contains(err.Error(), "invalid header") {
-			return pbt.Result{Skip: true} // net/http refuses to send the header value
+	var hr *http.Response
+	if c.PathKind == "no-path" || c.PathKind == "star-path" {
+		// request targets without any slash: the absolute form without a path ("GET http://host HTTP/1.1") and the
+		// asterisk form; Go's client cannot send them, so the handler is called the way the server would call it
+		req := httptest.NewRequest(http.MethodGet, "http://indexer.example", nil)
+		path = req.URL.Path
+		if c.PathKind == "star-path" {
+			req.URL.Path, path = "*", "*"
 		}
-		return merge(res, pbt.Failf("GET %s with Accept %q: %v (handler panic closes the connection)", path, c.Accepts, err))
+		for _, h := range c.Accepts {
+			req.Header.Add("Accept", h)
+		}
+		rec := httptest.NewRecorder()
+		var pv any
+		func() {
+			defer func() { pv = recover() }()
+			srv.Config.Handler.ServeHTTP(rec, req)
+		}()
+		if pv != nil {
+			return merge(res, pbt.Failf("request target %q with Accept %q: the handler panicked: %v", path, c.Accepts, pv))
+		}
+		hr = rec.Result()
+	} else {
+		req, err := http.NewRequest(http.MethodGet, srv.URL+path, nil)
+		if err != nil {
+			return pbt.Result{Skip: true}
+		}
+		for _, h := range c.Accepts {
+			req.Header.Add("Accept", h)
+		}
+		hr, err = http.DefaultClient.Do(req)
+		if err != nil {
+			if strings.Contains(err.Error(), "invalid header") {
+				return pbt.Result{Skip: true} // net/http refuses to send the header value
+			}
+			return merge(res, pbt.Failf("GET %s with Accept %q: %v (handler panic closes the connection)", path, c.Accepts, err))
+		}
 	}
 	body, _ := io.ReadAll(hr.Body)
 	hr.Body.Close()
@@ -549,7 +573,7 @@ func runNeg(c negCase) pbt.Result {
 
 func TestC19_Negotiation(t *testing.T) {
 	pbt.Run(t, pbt.Config{Prop: "C19", Unit: "TestC19_Negotiation",
-		Rule: "0..2 Accept header values of 1..3 elements over supported, unsupported and malformed media types x preferJson on/off x request paths (valid multihash / CID key, extra prefix, other resource type, missing type, missing key, garbage keys, trailing slash, base58 that is not a multihash); oracle: no supported media type (or none at all without JSON preference) or a bad path => 400-class status, rwriter.New's error is an *apierror.Error with that status whose message survives http.Error -> apierror.FromResponse; well-formed requests => 200 with a body matching its Content-Type; a handler panic shows as a transport error. Non-trivial: a request that must be rejected; distinct by case.",
+		Rule: "0..2 Accept header values of 1..3 elements over supported, unsupported and malformed media types x preferJson on/off x request paths (valid multihash / CID key, extra prefix, other resource type, missing type, missing key, garbage keys, trailing slash, base58 that is not a multihash, and the two request targets without a slash: absolute form without a path, and the asterisk); oracle: no supported media type (or none at all without JSON preference) or a bad path => 400-class status, rwriter.New's error is an *apierror.Error with that status whose message survives http.Error -> apierror.FromResponse; well-formed requests => 200 with a body matching its Content-Type; a handler panic shows as a transport error. Non-trivial: a request that must be rejected; distinct by case.",
 		Assumptions: []string{"headers that mix supported and malformed elements are not asserted either way", "'malformed' = mime.ParseMediaType fails on an element"},
 	}, genNeg, runNeg)
 }
